@@ -225,4 +225,8 @@ def run(ck, tier):
     ck.assume('GIL-level atomicity of single statements is assumed; actual interleavings are not explored')
     from .. import ownership as _own
     ck.guard(_own.rule_instance_owned, ck, cx, 'R5', _own.MANAGERS, "the transaction table / lock state would be shared between clients instead of being protected by the client's own lock", 3)
+    from ..share import import_findings as _imp
+    ck.rule('R6', 'the connection is (re)opened under the lock: connect() precedes the transmission inside the locked region on every attempt, so a caller that queued behind a failed transaction does not send on the socket that transaction closed (shared with C13 R20)')
+    _imp(ck, 'C13', 'R6', ('R20',), 'the connect() that BaseModbusClient.execute performs happens before the lock is taken: a thread waiting for the lock behind a transaction that '
+         'ends in a fault finds the socket closed when its turn comes, although the slave is healthy', detail_prefixes=('attempt-without-connect',))
     return cx.idx
